@@ -33,8 +33,10 @@ Record owner := {
 }.
 
 (* ---------------------------------------------------------------- holder *)
-Record tracker := { t_clid : Z; t_recv : Z; t_proxy : option Z }.
-   (* RemoteReferenceTracker: clid, received_count, ref  (None = no weakref yet or dead weakref; Some p = live proxy p) *)
+Record tracker := { t_clid : Z; t_recv : Z; t_proxy : option Z; t_url : option Z }.
+   (* RemoteReferenceTracker: clid, received_count, ref  (None = no weakref yet or dead weakref; Some p = live proxy p),
+      url / interfaceName (Some x: the tracker was created from the LONG form of a my-reference -- interface name and FURL of
+      object x; None: from the short form, the tracker knows no FURL for what it designates) *)
 
 Fixpoint upd_nth {A} (l : list A) (i : nat) (f : A -> A) : list A :=
   match l, i with
@@ -71,7 +73,9 @@ Record holder := {
 
 (* ---------------------------------------------------------------- wire *)
 Inductive msgOH :=
-| MyRef (c : Z) (disc : bool)     (* a my-reference inside a call; disc: the receiver discards it (earlier Violation in that call) *)
+| MyRef (c : Z) (disc : bool) (u : option Z)
+                                  (* a my-reference inside a call; disc: the receiver discards it (earlier Violation in that call);
+                                     u = Some x: the long form `my-reference clid interfacename furl-of-x`, None: `my-reference clid` *)
 | Ack (rid : Z).                  (* answer to a decref call *)
 Inductive msgHO :=
 | Decref (c n rid : Z)            (* callRemote("decref", clid=c, count=n) *)
@@ -111,6 +115,9 @@ Definition init : state :=
 Definition new_clid (x n : Z) : Z := if x <? 0 then callable_clid n else n.
 
 (* ---- Send: ReferenceableSlicer.slice = getTrackerForMyReference + tracker.send() + `yield tracker.clid` *)
+Definition myref_url (first : bool) (x : Z) : option Z :=
+  match myref_long_form with LongWhenFirst => if first then Some x else None | LongAlways => Some x end.
+
 Definition do_send (s : state) (x : Z) (disc : bool) : state * list event :=
   let o := ow s in
   let '(c, tab, nxt, al) :=
@@ -120,25 +127,28 @@ Definition do_send (s : state) (x : Z) (disc : bool) : state * list event :=
                (new_clid x (o_next o), x) :: o_alloc o)
     end in
   match send (rc tab c) with
-  | Ok (_, v) =>
+  | Ok (first, v) =>
+    (* `firstTime = tracker.send(); if firstTime: yield iname; yield url`: the FURL travels only when send() says "first" *)
     ({| ow := {| o_tab := set_rc tab c v; o_next := nxt; o_alloc := al; o_failed := o_failed o |};
-        hd := hd s; ch_oh := ch_oh s ++ [MyRef c disc]; ch_ho := ch_ho s; lost := lost s; leaked := leaked s |}, [])
+        hd := hd s; ch_oh := ch_oh s ++ [MyRef c disc (myref_url first x)]; ch_ho := ch_ho s; lost := lost s; leaked := leaked s |}, [])
   | Exc _ => (s, [])
   end.
 
 (* ---- the holder receives a my-reference: getTrackerForYourReference + getRef *)
 Definition get_ref (t : tracker) (nextpid : Z) : tracker * Z * Z :=   (* (tracker', delivered proxy, nextpid') *)
   match t_proxy t with
-  | Some p => ({| t_clid := t_clid t; t_recv := getRef_incr (t_recv t); t_proxy := Some p |}, p, nextpid)
-  | None => ({| t_clid := t_clid t; t_recv := getRef_incr (t_recv t); t_proxy := Some nextpid |}, nextpid, nextpid + 1)
+  | Some p => ({| t_clid := t_clid t; t_recv := getRef_incr (t_recv t); t_proxy := Some p; t_url := t_url t |}, p, nextpid)
+  | None => ({| t_clid := t_clid t; t_recv := getRef_incr (t_recv t); t_proxy := Some nextpid; t_url := t_url t |}, nextpid, nextpid + 1)
   end.
 
-Definition do_myref (s : state) (c : Z) (rest : list msgOH) : state * list event :=
+(* getTrackerForYourReference(clid, interfaceName, url): the interface name and URL of the message are used only when a NEW
+   tracker is made; a tracker found in the table keeps what it has *)
+Definition do_myref (s : state) (c : Z) (u : option Z) (rest : list msgOH) : state * list event :=
   let h := hd s in
   let '(trk, tab, i) :=
     match tab_get (h_tab h) c with
     | Some i => (h_trk h, h_tab h, i)
-    | None => (h_trk h ++ [{| t_clid := c; t_recv := 0; t_proxy := None |}], (c, List.length (h_trk h)) :: h_tab h,
+    | None => (h_trk h ++ [{| t_clid := c; t_recv := 0; t_proxy := None; t_url := u |}], (c, List.length (h_trk h)) :: h_tab h,
                List.length (h_trk h))
     end in
   match nth_error trk i with
@@ -179,9 +189,9 @@ Definition do_ack (s : state) (rid : Z) (rest : list msgOH) : state * list event
 Definition do_recv_oh (s : state) : state * list event :=
   match ch_oh s with
   | [] => (s, [])
-  | MyRef c true :: rest =>
+  | MyRef c true _ :: rest =>
     ({| ow := ow s; hd := hd s; ch_oh := rest; ch_ho := ch_ho s; lost := lost s; leaked := c :: leaked s |}, [])
-  | MyRef c false :: rest => do_myref s c rest
+  | MyRef c false u :: rest => do_myref s c u rest
   | Ack rid :: rest => do_ack s rid rest
   end.
 
@@ -217,7 +227,7 @@ Definition do_drop (s : state) (p : Z) : state * list event :=
   | None => (s, [])
   | Some i =>
     ({| ow := ow s;
-        hd := {| h_trk := upd_nth (h_trk h) i (fun t => {| t_clid := t_clid t; t_recv := t_recv t; t_proxy := None |});
+        hd := {| h_trk := upd_nth (h_trk h) i (fun t => {| t_clid := t_clid t; t_recv := t_recv t; t_proxy := None; t_url := t_url t |});
                  h_tab := h_tab h; h_nextpid := h_nextpid h; h_nextrid := h_nextrid h;
                  h_pend := h_pend h ++ [i]; h_acks := h_acks h |};
         ch_oh := ch_oh s; ch_ho := ch_ho s; lost := lost s; leaked := leaked s |}, [])
@@ -240,7 +250,7 @@ Definition do_reflost (s : state) : state * list event :=
             ch_oh := ch_oh s; ch_ho := ch_ho s; lost := lost s; leaked := leaked s |}, [])
       | None =>
         let '(count, recv') := handleRefLost_assign (t_recv t) in
-        let trk := upd_nth (h_trk h) i (fun t => {| t_clid := t_clid t; t_recv := recv'; t_proxy := t_proxy t |}) in
+        let trk := upd_nth (h_trk h) i (fun t => {| t_clid := t_clid t; t_recv := recv'; t_proxy := t_proxy t; t_url := t_url t |}) in
         if handleRefLost_skip count then
           ({| ow := ow s;
               hd := {| h_trk := trk; h_tab := h_tab h; h_nextpid := h_nextpid h; h_nextrid := h_nextrid h;
@@ -328,9 +338,9 @@ Definition do_ack_k (k : delkey) (s : state) (rid : Z) (rest : list msgOH) : sta
 Definition do_recv_oh_k (k : delkey) (s : state) : state * list event :=
   match ch_oh s with
   | [] => (s, [])
-  | MyRef c true :: rest =>
+  | MyRef c true _ :: rest =>
     ({| ow := ow s; hd := hd s; ch_oh := rest; ch_ho := ch_ho s; lost := lost s; leaked := c :: leaked s |}, [])
-  | MyRef c false :: rest => do_myref s c rest
+  | MyRef c false u :: rest => do_myref s c u rest
   | Ack rid :: rest => do_ack_k k s rid rest
   end.
 
@@ -356,7 +366,7 @@ Fixpoint recv_sum (trk : list tracker) (c : Z) : Z :=
 Fixpoint inflight (ch : list msgOH) (c : Z) : Z :=
   match ch with
   | [] => 0
-  | MyRef k _ :: r => (if k =? c then 1 else 0) + inflight r c
+  | MyRef k _ _ :: r => (if k =? c then 1 else 0) + inflight r c
   | Ack _ :: r => inflight r c
   end.
 Fixpoint decs (ch : list msgHO) (c : Z) : Z :=
@@ -461,3 +471,27 @@ Fixpoint aand_complete (s : aand) (j : nat) : aand :=   (* j of the pending inpu
   match j with O => s | S j' => aand_complete (aand_cb s) j' end.
 
 Definition npending (inputs : list bool) : nat := List.length (filter negb inputs).
+
+(* ---------------------------------------------------------------- one placeholder in several places (C08, "repeated
+   within one call" for values that hold gifts)
+   A value the receiver cannot build yet -- a tuple holding a gift that is still being introduced -- is represented in
+   EVERY place that contains it (argument, list item, dict value, set member, tuple item; the second and later places
+   arrive as banana back-references) by one and the same Deferred.  Every place subscribes its update callback to it, and
+   when the value is complete Twisted runs the callbacks in subscription order, each one receiving what the previous one
+   RETURNED.  Whether the update callback of a kind of place returns its argument is read from the source
+   (gen: update_passes_list and its four siblings).  `fire cur places` = what each place stores when the Deferred fires with `cur`. *)
+Inductive place := PList | PTuple | PSet | PDict | PArg.
+
+Definition place_passes (k : place) : bool :=
+  match k with
+  | PList => update_passes_list | PTuple => update_passes_tuple | PSet => update_passes_set
+  | PDict => update_passes_dict | PArg => update_passes_arg
+  end.
+
+Fixpoint fire_with (passes : place -> bool) (cur : option Z) (ps : list place) : list (option Z) :=
+  match ps with
+  | [] => []
+  | k :: r => cur :: fire_with passes (if passes k then cur else None) r
+  end.
+
+Definition fire := fire_with place_passes.
